@@ -86,6 +86,17 @@ def part1(rows, seed, big):
         if len(t.tx) != 2 or t.tx[0] != header_of(r['cmd'], a0, a1, data) or t.tx[1] != data:
           bad.append(('written frame is not header(24 bytes, little endian) immediately followed by the payload', det))
           continue
+        # the same message object written again after its public fields were changed: every written
+        # frame's header describes the payload that follows it
+        msg = am.AdbMessage(r['cmd'], a0, a1, data)
+        t2 = usbfake.ChunkTransport()
+        ad2 = am.AdbTransportAdapter(t2)
+        ad2.write_message(msg, to.PolledTimeout.from_millis(1000))
+        msg.data = data + 'z'
+        msg.arg0, msg.arg1 = a1, a0
+        ad2.write_message(msg, to.PolledTimeout.from_millis(1000))
+        if t2.tx[2:] != [header_of(r['cmd'], a1, a0, data + 'z'), data + 'z']:
+          bad.append(('a message object written again after its fields changed goes out with a stale header', det))
         t.rx = corrupt(r['c'], r['cmd'], a0, a1, data)
         try:
           m = ad.read_message(to.PolledTimeout.from_millis(1000))
